@@ -13,6 +13,7 @@ import JP.Patch
 import JP.Query
 import JP.Rfc9535
 import JP.RegexImpl
+import JP.Fluent
 open Lean JP
 
 namespace Drv
@@ -253,6 +254,34 @@ def encNode (n : Node) : Json :=
 def encRNode (n : Rfc.RNode) : Json :=
   Json.mkObj [("path", .str (l2s (Rfc.normalizedPath n.loc))), ("val", encJ n.val)]
 
+
+def decFluentOp (j : Json) : Except String Fluent.Op :=
+  match j with
+  | .arr #[.str name, .num n] =>
+    let k := n.mantissa
+    match name with
+    | "limit" => pure (.limit k) | "head" => pure (.head k) | "first" => pure (.first k)
+    | "drop" => pure (.drop k) | "skip" => pure (.skip k)
+    | "tail" => pure (.tail k) | "last" => pure (.last k)
+    | "take" => pure (.take k) | "tee" => pure (.tee k)
+    | o => throw s!"bad fluent op {o}"
+  | .arr #[.str "first_one"] => pure .firstOne
+  | .arr #[.str "one"] => pure .one
+  | .arr #[.str "last_one"] => pure .lastOne
+  | _ => throw "bad fluent op"
+
+def encNats (xs : List Nat) : Json := .arr (xs.map (fun (n : Nat) => Json.num ⟨n, 0⟩)).toArray
+
+def encOut : Fluent.Out Nat → Json
+  | .valueError => Json.mkObj [("err", .str "ValueError")]
+  | .taken xs => Json.mkObj [("taken", encNats xs)]
+  | .children xss => Json.mkObj [("children", .arr (xss.map encNats).toArray)]
+  | .item none => Json.mkObj [("item", .null)]
+  | .item (some x) => Json.mkObj [("item", .num ⟨x, 0⟩)]
+
+def encRun (r : List (Fluent.Out Nat) × List Nat) : Json :=
+  Json.mkObj [("outs", .arr (r.1.map encOut).toArray), ("final", encNats r.2)]
+
 def handle (req : Json) : Except String Json := do
   let op ← req.getObjVal? "op"
   let .str op := op | throw "op must be a string"
@@ -412,6 +441,13 @@ def handle (req : Json) : Except String Json := do
     let nodes := Query.compoundFinditer RegexImpl.rx c doc extra
     let vals := Query.compoundFindall RegexImpl.rx c doc extra
     pure (Json.mkObj [("nodes", .arr (nodes.map encNode).toArray), ("values", .arr (vals.map encJ).toArray)])
+  | "fluent.run" =>
+    let k ← req.getObjValAs? Nat "k"
+    let opsJ ← req.getObjVal? "ops"
+    let .arr opsA := opsJ | throw "ops"
+    let ops ← opsA.toList.mapM decFluentOp
+    let l := List.range k
+    pure (Json.mkObj [("model", encRun (Fluent.run ops (.src l))), ("spec", encRun (Fluent.runSpec ops l))])
   | "q.slice" =>
     let len ← req.getObjValAs? Nat "len"
     let a ← optInt (← req.getObjVal? "a")
